@@ -7,8 +7,10 @@ package regul
 import (
 	"encoding/json"
 	"fmt"
+	"runtime"
 	"sort"
 	"sync"
+	"time"
 
 	"verif/harness/sim"
 
@@ -58,6 +60,23 @@ type run struct {
 	opFirstAlloc     bool            // the current operation started with zero tables
 	firstAllocMin    int
 	changesAfterSync bool
+
+	// a sync of another table issued from a second goroutine while the
+	// regulator is inside the assign callback (it must block on the
+	// regulator's lock until the outer operation is over)
+	nestTable string
+	nest      *nested
+}
+
+type nested struct {
+	table     string
+	goid      int64
+	done      chan struct{}
+	rel       int
+	np        []string
+	err       error
+	pan       string
+	ranInside bool // it completed while the outer operation was still inside its callback
 }
 
 var runs sync.Map // regulator.Regulator -> *run
@@ -152,6 +171,7 @@ func (r *run) assignPlayers(tableID string, players []string) error {
 	}
 	r.checkHandout("assignPlayersFn("+tableID+")", players)
 	t.members = append(t.members, players...)
+	r.launchNested(tableID)
 	if len(t.members) > r.cfg.Max {
 		r.viol("C19", "top-up-over-capacity", fmt.Sprintf("assignPlayersFn raised table %s to %d players, max %d", tableID, len(t.members), r.cfg.Max))
 	}
@@ -359,6 +379,7 @@ func (r *run) opAdd(n int) {
 	if r.dead {
 		return
 	}
+	r.finishNested()
 	if late {
 		r.probe("registration-after-deadline")
 		if err == nil {
@@ -380,6 +401,7 @@ func (r *run) opStatus(s int) {
 	r.beginOp(nil)
 	r.status = s // the callbacks run inside SetStatus and see the new status
 	r.guard(func() { r.reg.SetStatus(regulator.CompetitionStatus(s)) })
+	r.finishNested()
 	r.trans("status", fmt.Sprint(s))
 }
 
@@ -458,6 +480,14 @@ func (r *run) opSync(id string, out int, key uint64) (int, int, bool) {
 	if r.dead {
 		return 0, 0, false
 	}
+	a, b, c := r.follow(id, out, key, rel, np, err)
+	r.finishNested()
+	return a, b, c
+}
+
+// follow: the table carries out what a successful sync told it to do.
+func (r *run) follow(id string, out int, key uint64, rel int, np []string, err error) (int, int, bool) {
+	t := r.tables[id]
 	if err != nil {
 		r.viol("C09", "sync-of-live-table-refused", fmt.Sprintf("SyncState(%s,%d) returned %v", id, out, err))
 		return 0, 0, false
@@ -532,6 +562,7 @@ func (r *run) opDeliver(k int) {
 	if r.dead {
 		return
 	}
+	r.finishNested()
 	if err != nil {
 		r.viol("C09", "release-refused", fmt.Sprintf("ReleasePlayers(%s,%v) returned %v", rel.table, rel.players, err))
 	}
@@ -547,6 +578,11 @@ func (r *run) opDeliver(k int) {
 				for _, p := range r.tables[id].members {
 					where[p] = true
 				}
+			}
+		}
+		for _, fl := range r.inflight {
+			for _, p := range fl.players {
+				where[p] = true // already asked to move again by a later sync
 			}
 		}
 		for _, p := range rel.players {
@@ -580,6 +616,12 @@ func (r *run) apply(st *sim.Step) {
 			return st.Args[i]
 		}
 		return 0
+	}
+	r.nestTable = ""
+	for _, x := range st.SArgs {
+		if len(x) > 5 && x[:5] == "nest:" {
+			r.nestTable = x[5:]
+		}
 	}
 	switch st.Op {
 	case "add":
@@ -726,6 +768,7 @@ func (w World) Generate(subseed uint64, o sim.Options) *sim.Result {
 	deadlineAt := startAt + 3 + rng.Intn(nsteps)
 	delayRate := []float64{0, 0.3, 0.8}[rng.Intn(3)]
 	elimMax := 1 + rng.Intn(3)
+	nestRate := []float64{0, 0.1, 0.4}[rng.Intn(3)]
 	for i := 0; i < nsteps && !r.dead; i++ {
 		if i == startAt {
 			do(sim.Step{Actor: "director", Op: "status", Args: []int64{1}})
@@ -757,7 +800,11 @@ func (w World) Generate(subseed uint64, o sim.Options) *sim.Result {
 				fault = "registration-after-deadline"
 				r.res.Count("fault.registration-after-deadline", 1)
 			}
-			do(sim.Step{Actor: "registrar", Op: "add", Args: []int64{int64(n)}, Fault: fault})
+			st := sim.Step{Actor: "registrar", Op: "add", Args: []int64{int64(n)}, Fault: fault}
+			if len(live) > 1 && rng.Chance(nestRate) {
+				st.SArgs = []string{"nest:" + live[rng.Intn(len(live))]}
+			}
+			do(st)
 		case 1:
 			id := live[rng.Intn(len(live))]
 			out := 0
@@ -773,11 +820,19 @@ func (w World) Generate(subseed uint64, o sim.Options) *sim.Result {
 				if rng.Chance(delayRate) {
 					r.res.Count("fault.release-delayed", 1)
 				} else {
-					do(sim.Step{Actor: "transport", Op: "deliver", Args: []int64{int64(len(r.inflight) - 1)}})
+					st := sim.Step{Actor: "transport", Op: "deliver", Args: []int64{int64(len(r.inflight) - 1)}}
+					if len(live) > 1 && rng.Chance(nestRate) {
+						st.SArgs = []string{"nest:" + live[rng.Intn(len(live))]}
+					}
+					do(st)
 				}
 			}
 		case 2:
-			do(sim.Step{Actor: "transport", Op: "deliver", Args: []int64{int64(rng.Intn(len(r.inflight)))}, Fault: "late-release"})
+			st := sim.Step{Actor: "transport", Op: "deliver", Args: []int64{int64(rng.Intn(len(r.inflight)))}, Fault: "late-release"}
+			if len(live) > 1 && rng.Chance(nestRate) {
+				st.SArgs = []string{"nest:" + live[rng.Intn(len(live))]}
+			}
+			do(st)
 			r.res.Count("fault.late-release-delivered", 1)
 		case 3:
 			id := fmt.Sprintf("t%d", 1+rng.Intn(r.everTables+3))
@@ -867,4 +922,98 @@ func (w World) Simplify(c *sim.Case) []*sim.Case {
 		}
 	}
 	return out
+}
+
+// ---- a second caller during the assign callback -----------------------------------
+
+// launchNested is called from inside assignPlayersFn, i.e. while the
+// regulator is in the middle of an operation. Another table's sync arrives on
+// a second goroutine. The regulator's lock must make it wait; whether it does
+// is observed (mutex wait reason), not assumed.
+func (r *run) launchNested(assignedTo string) {
+	if r.nestTable == "" || r.nest != nil || r.nestTable == assignedTo {
+		return
+	}
+	t := r.tables[r.nestTable]
+	if t == nil || t.broken {
+		return
+	}
+	n := &nested{table: r.nestTable, done: make(chan struct{})}
+	r.nest = n
+	ready := make(chan struct{})
+	go func() {
+		n.goid = sim.GoID()
+		close(ready)
+		defer close(n.done)
+		defer func() {
+			if x := recover(); x != nil {
+				n.pan = fmt.Sprint(x)
+			}
+		}()
+		n.rel, n.np, n.err = r.reg.SyncState(n.table, 0)
+	}()
+	<-ready
+	r.res.Count("fault.sync-during-assign-callback", 1)
+	deadline := time.Now().Add(5 * time.Second)
+	for spins := 0; ; spins++ {
+		select {
+		case <-n.done:
+			n.ranInside = true
+			r.probe("nested-sync-ran-inside-the-callback")
+			// the other table follows its instructions right away
+			if n.pan == "" {
+				r.follow(n.table, 0, 0x5e5, n.rel, n.np, n.err)
+			}
+			return
+		default:
+		}
+		if spins > 20 {
+			if sim.BlockedOnLock(map[int64]bool{n.goid: true})[n.goid] {
+				r.probe("nested-sync-blocked-on-the-lock")
+				return
+			}
+			time.Sleep(20 * time.Microsecond)
+		} else {
+			runtime.Gosched()
+		}
+		if time.Now().After(deadline) {
+			r.res.Fault = "watchdog: nested sync neither finished nor blocked"
+			r.dead = true
+			return
+		}
+	}
+}
+
+// finishNested is called after the outer operation has returned: a nested
+// sync that had to wait for the lock completes now and is followed.
+func (r *run) finishNested() {
+	n := r.nest
+	if n == nil {
+		return
+	}
+	r.nest = nil
+	if n.ranInside {
+		return
+	}
+	select {
+	case <-n.done:
+	case <-time.After(5 * time.Second):
+		r.res.Fault = "watchdog: nested sync did not finish after the outer operation"
+		r.dead = true
+		return
+	}
+	if n.pan != "" {
+		r.viol("C09", "panic", n.pan)
+		r.viol("C20", "panic", n.pan)
+		r.dead = true
+		return
+	}
+	// its hand-outs come from the queue as it is now
+	for _, p := range r.queue() {
+		r.allowed[p] = true
+	}
+	for _, p := range n.np {
+		r.allowed[p] = true
+	}
+	r.follow(n.table, 0, 0x5e5, n.rel, n.np, n.err)
 }
